@@ -65,10 +65,26 @@ def _(eng, m, g, a): return VecV()
 def _(eng, m, g, a): deref(a[0]).items.append(a[1]); return UNIT
 @model(r"^<impl AsRef<str> as AsRef<str>>::as_ref$")
 def _(eng, m, g, a): return a[0]
-@model(r"^<TokenStream as IntoIterator>::into_iter$")
-def _(eng, m, g, a):
-    kinds = {"g": (0, "Group"), "i": (1, "Ident"), "p": (2, "Punct"), "l": (3, "Literal")}
-    return ListIt([En("TokenTree", kinds[t[0]][0], kinds[t[0]][1], [Agg("tok", [t])]) for t in deref(a[0]).t], byref=False)
+def tt_of(t):
+    """token tuple -> proc_macro2::TokenTree value"""
+    if t[0] == "g": return En("TokenTree", 0, "Group", [Agg("Group", [t[1], t[2]])])
+    if t[0] == "i": return En("TokenTree", 1, "Ident", [IdentV(t[1])])
+    if t[0] == "p": return En("TokenTree", 2, "Punct", [Agg("Punct", [t[1], t[2]])])
+    return En("TokenTree", 3, "Literal", [Agg("Literal", [t[1]])])
+def tok_of(x):
+    """TokenTree value (or a token stream piece) -> list of token tuples"""
+    x = deref(x)
+    if isinstance(x, En) and x.enum == "TokenTree":
+        p = deref(x.f[0])
+        if x.name == "Group": return [("g", p.f[0], p.f[1])]
+        if x.name == "Ident": return [("i", p.name)]
+        if x.name == "Punct": return [("p", p.f[0], p.f[1])]
+        return [("l", p.f[0])]
+    if isinstance(x, TS): return list(x.t)
+    if isinstance(x, IdentV): return [("i", x.name)]
+    raise Unmodelled("token stream piece %r" % (x,))
+@model(r"^<(?:proc_macro2::)?TokenStream as IntoIterator>::into_iter$")
+def _(eng, m, g, a): return ListIt([tt_of(t) for t in deref(a[0]).t], byref=False)
 MODELS.insert(0, MODELS.pop())   # must win over the generic IntoIterator model
 @model(r"^<.* as Iterator>::take_while$")
 def _(eng, m, g, a):
@@ -79,10 +95,24 @@ def _(eng, m, g, a):
         if x is None or not eng.branch(eng.call_value(a[1], [Slot([x], 0)])): break
         out.append(x)
     return ListIt(out, byref=False)
-@model(r"^Punct::as_char$|^proc_macro2::Punct::as_char$")
-def _(eng, m, g, a): return Sc("char", ord(deref(a[0]).f[0][1]))
-models_std.COLLECT_HOOKS.insert(0, (re.compile(r"^(proc_macro2::)?TokenStream$"),
-    lambda eng, it, t: TS([ (x.f[0].f[0] if isinstance(x, En) and x.enum == "TokenTree" else tok) for x in drain(eng, it) for tok in ([None] if isinstance(x, En) and x.enum == "TokenTree" else deref(x).t)])))
+@model(r"^(?:proc_macro2::)?Punct::as_char$")
+def _(eng, m, g, a): return Sc("char", ord(deref(a[0]).f[0]))
+@model(r"^(?:proc_macro2::)?Punct::spacing$")
+def _(eng, m, g, a): return En("Spacing", 1 if deref(a[0]).f[1] else 0, "Joint" if deref(a[0]).f[1] else "Alone", [])
+@model(r"^(?:proc_macro2::)?Group::stream$")
+def _(eng, m, g, a): return TS(list(deref(deref(a[0]).f[1]).t))
+@model(r"^(?:proc_macro2::)?Group::delimiter$")
+def _(eng, m, g, a):
+    d = deref(a[0]).f[0]; return En("Delimiter", VARIANTS[("Delimiter", d)], d, [])
+models_std.COLLECT_HOOKS.insert(0, (re.compile(r"^(proc_macro2::)?TokenStream$"), lambda eng, it, t: TS([tok for x in drain(eng, it) for tok in tok_of(x)])))
+@model(r"^<(?:proc_macro2::)?TokenStream as Extend<(?:proc_macro2::)?TokenTree>>::extend$|^<(?:proc_macro2::)?TokenStream as FromIterator<.*>>::from_iter$")
+def _(eng, m, g, a):
+    src = deref(a[0] if "from_iter" in m.group(0) else a[1])
+    toks = list(src.t) if isinstance(src, TS) else [tok for x in drain(eng, as_iter(eng, src)) for tok in tok_of(x)]
+    if "from_iter" in m.group(0): return TS(toks)
+    deref(a[0]).t += toks; return UNIT
+MODELS.insert(0, MODELS.pop())
+add_enum("Spacing", ["Alone", "Joint"])
 
 def canon(v, out):
     v = deref(v); vd = v.f[0]
